@@ -13,10 +13,15 @@ for d in sorted((V / "seeded").iterdir()):
     if only and pid not in only:
         continue
     assert subprocess.run(["git", "-C", "/repo", "diff", "--quiet"]).returncode == 0, "/repo dirty"
-    subprocess.run(["git", "-C", "/repo", "apply", str(d / "patch.diff")], check=True)
+    if subprocess.run(["git", "-C", "/repo", "apply", "--3way", str(d / "patch.diff")], capture_output=True).returncode != 0:
+        subprocess.run(["git", "-C", "/repo", "reset", "-q"], check=True)
+        subprocess.run(["git", "-C", "/repo", "checkout", "--", "."], check=True)
+        print((d.name, "PATCH-DOES-NOT-APPLY (the code it mutates was changed by a later fix: commit)"))
+        continue
     try:
         r = subprocess.run(["./check", pid, "--tier", "quick"], cwd=V, capture_output=True, text=True)
     finally:
+        subprocess.run(["git", "-C", "/repo", "reset", "-q"], check=True)
         subprocess.run(["git", "-C", "/repo", "checkout", "--", "."], check=True)
     vio = [l for l in r.stdout.splitlines() if l.startswith("VIOLATION")]
     meta = json.loads((d / "meta.json").read_text())
